@@ -417,3 +417,188 @@ Theorem C05_volchain_grow_nospace_keeps_count_refuted :
 Proof. exact grow_nospace_keeps_count_refuted. Qed.
 
 Print Assumptions C05_volchain_grow_nospace_keeps_count_refuted.
+(* ================================================================ the FS-INFORMATION SECTOR of a FAT32 volume inside the image model
+   (Model/VolFsInfo.v, Proofs/VolFsInfoProofs.v): mount (the latch read from the sector: a DIRTY status byte discards the stored count,
+   a count above the cluster count and a hint outside 2 .. total+2 are dropped) ; any admissible calls - statistics, allocations,
+   frees, calls on a file handle, each with the status mark of C12 - ; unmount (flush_fs_info if the latch is dirty: all 512 bytes
+   of the serialised sector, then set_dirty_flag(false)).
+   [fsi_free_word] / [fsi_next_word]: the two words of the sector (offsets 488 / 492); [count_free]: Spec/Abs.v's count of free
+   entries; [Vol32 g]: VolFileProofs.vgeom_ok, FAT32 width, 1 <= FS-info sector < reserved sectors, 512-byte sectors or larger;
+   [mount_coherent]: IF mount latches a count it is the decoder's; [run_ok]: every call is admissible where it is issued
+   ([call_ok]: statistics always; an allocation behind a cluster in use; the release of a chain the decoder walks; a handle call
+   while the file layer's invariant VolInv holds); [sector_wf]: signatures intact and reserved bytes zero. *)
+From FatVerif Require Import Model.Flags Model.FormatImage Model.VolStatus Model.VolFsInfo Proofs.FatProofs Proofs.VolFileProofs
+  Proofs.VolStatusProofs Proofs.VolFsInfoProofs Proofs.VolFsInfoExamples.
+
+(* what a successful mount read, in terms of the image *)
+Theorem C05_vol32_mount_latch : forall strict im fi s,
+  let g := parse_geom im in
+  bytes_ok im -> g_bits g = 32 -> vol32_mount strict im = Ok (fi, s) ->
+  s = st_mount (img_get im 65) /\ img_get im 65 < 256 /\
+  fi = {| fi_free := (if N.odd (img_get im 65) then None
+                      else if fsi_free_word g im <=? g_clusters g then Some (fsi_free_word g im) else None);
+          fi_next := (if (2 <=? fsi_next_word g im) && (fsi_next_word g im <=? g_clusters g + 2) then Some (fsi_next_word g im) else None);
+          fi_dirty := false |} /\
+  sigs_ok g im /\ g_fsinfo_sector g < g_reserved g /\ 512 <= g_bps g /\ g_bps g <= 4096 /\ img_u16 im 22 = 0 /\
+  g_clusters g + 2 <= 4294967295.
+Proof. exact vol32_mount_facts. Qed.
+
+(* THE FS-INFO CLAUSE: a volume mounted clean whose stored count is unknown or right; any admissible session; unmount.
+   The free-count word is unknown EXACTLY when it was unknown at mount and statistics were never asked for, otherwise it is the
+   decoder's count of the final image; the hint is unknown, a cluster number, or the word found at mount; the signatures are
+   intact; the status byte is the mount-time byte; unmount changes nothing but the status byte and the sector - of a well-formed
+   sector only its two words - and the geometry and the table of the final image are those before unmount *)
+Theorem C05_vol32_session_fsinfo : forall strict im cs fi s h,
+  let g := parse_geom im in
+  bytes_ok im -> Vol32 g -> vol32_mount strict im = Ok (fi, s) ->
+  N.odd (img_get im 65) = false ->
+  (fsi_free_word g im = UNKNOWN32 \/ fsi_free_word g im = count_free g im) ->
+  let st0 := {| v_im := im; v_fi := fi; v_h := h; v_s := s |} in
+  run_ok g st0 cs ->
+  let stL := fst (v32_run g st0 cs) in
+  let im' := fst (fst (vol32_unmount g (v_im stL) (v_fi stL) (v_s stL))) in
+  parse_geom im' = g /\
+  (fsi_free_word g im' = UNKNOWN32 <-> fsi_free_word g im = UNKNOWN32 /\ existsb is_stats cs = false) /\
+  (fsi_free_word g im' <> UNKNOWN32 -> fsi_free_word g im' = count_free g im') /\
+  (fsi_next_word g im' = UNKNOWN32 \/ 2 <= fsi_next_word g im' < g_clusters g + 2 \/ fsi_next_word g im' = fsi_next_word g im) /\
+  sigs_ok g im' /\ img_get im' 65 = img_get im 65 /\
+  (forall a, a <> 65 -> ~ in_fsi g a -> img_get im' a = img_get (v_im stL) a) /\
+  (sector_wf g im -> forall a, a <> 65 -> ~ in_fsi_words g a -> img_get im' a = img_get (v_im stL) a) /\
+  count_free g im' = count_free g (v_im stL).
+Proof. exact vol32_session_fsinfo_clean. Qed.
+
+(* ... for EVERY mount byte and stored word under the weakest premise (a latched count is right): the word after unmount is the
+   decoder's count, or unknown, or - the latch never became dirty, nothing was latched at mount - the untouched word found at mount
+   (a volume mounted dirty whose sector is never written keeps its words and its dirty bit); when the sector is written the word
+   is the latch's: the decoder's count if a count is latched, unknown otherwise; a count is latched iff one was at mount or
+   statistics were asked for *)
+Theorem C05_vol32_session_fsinfo_any_mount : forall strict im cs fi s h,
+  let g := parse_geom im in
+  bytes_ok im -> Vol32 g -> vol32_mount strict im = Ok (fi, s) -> mount_coherent g im ->
+  let st0 := {| v_im := im; v_fi := fi; v_h := h; v_s := s |} in
+  run_ok g st0 cs ->
+  let stL := fst (v32_run g st0 cs) in
+  let imL := v_im stL in let fiL := v_fi stL in
+  let im' := fst (fst (vol32_unmount g imL fiL (v_s stL))) in
+  parse_geom im' = g /\ img_get im' 65 = img_get im 65 /\ sigs_ok g im' /\ bytes_ok im' /\
+  (fsi_free_word g im' = count_free g im' \/ fsi_free_word g im' = UNKNOWN32 \/
+   (fsi_free_word g im' = fsi_free_word g im /\ mount_free g im = None /\ fi_dirty fiL = false)) /\
+  (fi_dirty fiL = true ->
+     fsi_free_word g im' = match fi_free fiL with Some _ => count_free g im' | None => UNKNOWN32 end) /\
+  (fi_free fiL = None <-> (mount_free g im = None /\ existsb is_stats cs = false)) /\
+  (fi_dirty fiL = false ->
+     fsi_free_word g im' = fsi_free_word g im /\ fsi_next_word g im' = fsi_next_word g im /\ fiL = mount_latch g im) /\
+  (fsi_next_word g im' = UNKNOWN32 \/ 2 <= fsi_next_word g im' < g_clusters g + 2 \/ fsi_next_word g im' = fsi_next_word g im) /\
+  (forall a, a <> 65 -> ~ in_fsi g a -> img_get im' a = img_get imL a) /\
+  (fi_dirty fiL = false -> forall a, a <> 65 -> img_get im' a = img_get imL a) /\
+  (sector_wf g im -> forall a, a <> 65 -> ~ in_fsi_words g a -> img_get im' a = img_get imL a) /\
+  (forall a, in_fsi g a -> img_get imL a = img_get im a) /\
+  count_free g im' = count_free g imL.
+Proof. exact vol32_session_fsinfo_any. Qed.
+
+(* stats at ANY point of such a session answers exactly (cluster size, cluster count, the decoder's count of free entries of the
+   image at that point), touching neither image nor status latch *)
+Theorem C05_vol32_stats_exact : forall strict im cs fi s h,
+  let g := parse_geom im in
+  bytes_ok im -> Vol32 g -> vol32_mount strict im = Ok (fi, s) -> mount_coherent g im ->
+  let st0 := {| v_im := im; v_fi := fi; v_h := h; v_s := s |} in
+  run_ok g st0 cs ->
+  let stL := fst (v32_run g st0 cs) in
+  exists fi', v32_step g stL CStats =
+    ({| v_im := v_im stL; v_fi := fi'; v_h := v_h stL; v_s := v_s stL |},
+     RStats (Ok (g_cluster_size g, g_clusters g, count_free g (v_im stL)))).
+Proof. exact vol32_stats_exact. Qed.
+
+(* flush_fs_info byte by byte: nothing outside the 512 bytes; no write when the latch is clean; otherwise the sector IS the
+   serialisation of the latch - the reserved bytes of the sector are written as zeros, not preserved *)
+Theorem C05_vol32_flush_fs_info : forall g im fi,
+  let im' := fst (vol32_flush_fs_info g im fi) in
+  (forall a, ~ in_fsi g a -> img_get im' a = img_get im a) /\
+  (flushes g fi = false -> vol32_flush_fs_info g im fi = (im, fi)) /\
+  (flushes g fi = true -> img_read im' (fsi_off g) 512 = fsinfo_sector_bytes fi /\
+                          snd (vol32_flush_fs_info g im fi) = fi_clean fi) /\
+  (bytes_ok im -> bytes_ok im').
+Proof. exact flush_spec. Qed.
+
+(* the premise run_ok is satisfiable: any list of statistics calls and file calls (with byte data) on the fresh handle *)
+Theorem C05_vol32_session_premises : forall strict im fi s cs,
+  let g := parse_geom im in
+  bytes_ok im -> Vol32 g -> vol32_mount strict im = Ok (fi, s) -> mount_coherent g im -> Forall fs_call cs ->
+  run_ok g {| v_im := im; v_fi := fi; v_h := fresh_handle; v_s := s |} cs.
+Proof. exact session_premises. Qed.
+
+(* non-vacuity and the concrete picture on the formatted 65579-cluster volume: every premise holds; the session
+   write / stats / seek / read / truncate / stats answers 65577 twice and leaves count 65577, hint 4, status byte 0 *)
+Example C05_vol32_example_hyps :
+  bytes_ok ex32_im /\ Vol32 (parse_geom ex32_im) /\
+  vol32_mount false ex32_im = Ok ({| fi_free := Some 65578; fi_next := Some 3; fi_dirty := false |}, st_mount 0) /\
+  N.odd (img_get ex32_im 65) = false /\ fsi_free_word (parse_geom ex32_im) ex32_im = count_free (parse_geom ex32_im) ex32_im /\
+  mount_coherent (parse_geom ex32_im) ex32_im /\ sector_wf (parse_geom ex32_im) ex32_im /\
+  run_ok (parse_geom ex32_im)
+    {| v_im := ex32_im; v_fi := {| fi_free := Some 65578; fi_next := Some 3; fi_dirty := false |}; v_h := fresh_handle; v_s := st_mount 0 |}
+    ex32_calls.
+Proof. exact ex32_session_hyps. Qed.
+Example C05_vol32_example_result :
+  on_ok (vol32_session false ex32_im ex32_calls) (fun '(im', rs) =>
+      rs = [RFile (RCount 3); RStats (Ok (512, 65579, 65577)); RFile (RPos 0); RFile (RBytes [1; 2]); RFile RDone;
+            RStats (Ok (512, 65579, 65577))] /\
+      fsi_free_word ex32_g im' = 65577 /\ count_free ex32_g im' = 65577 /\ fsi_next_word ex32_g im' = 4 /\ img_get im' 65 = 0 /\
+      img_read im' 512 512 = fsinfo_bytes 65577 4 /\ parse_geom im' = ex32_g) /\
+  img_get (v_im (fst (v32_run ex32_g {| v_im := ex32_im; v_fi := {| fi_free := Some 65578; fi_next := Some 3; fi_dirty := false |};
+                                      v_h := fresh_handle; v_s := st_mount 0 |} [CFile (FWrite [1; 2; 3])]))) 65 = 1.
+Proof. exact ex32_session_result. Qed.
+
+(* OBSERVATION (not a violation of a listed clause; no check reports it): why [Vol32] asks 1 <= FS-info sector - the library's
+   mount does NOT.  A boot sector that doubles as FS-info sector (BPB_FSInfo = 0,
+   "RRaA" / "rrAa" / 00 00 55 AA in place) is mounted; statistics then unmount serialise the sector over the boot sector: the BPB is
+   zeroed and the volume does not mount again (replayed on the library: see the report / cfsinfo_corr.py) *)
+Theorem C05_vol32_observation_fsinfo_sector_zero :
+  exists im, g_fsinfo_sector (parse_geom im) = 0 /\ vgeom_okb (parse_geom im) = true /\
+    vol32_mount false im = Ok ({| fi_free := None; fi_next := None; fi_dirty := false |}, st_mount 0) /\
+    on_ok (vol32_session false im [CStats]) (fun '(im', rs) =>
+      rs = [RStats (Ok (512, 65579, 65578))] /\ g_bps (parse_geom im') = 0 /\ vol32_mount false im' = Err ECorruptedFileSystem).
+Proof. exists ex32_fsi0. destruct ex32_fsi0_destroys_boot_sector as (A & _ & B & C & D). exact (conj A (conj B (conj C D))). Qed.
+
+(* ---- ANY stored count (D28, repaired: FsInfoSector::map_free_clusters takes Fn(u32) -> Option<u32>; alloc_cluster uses
+   checked_sub(1), the frees checked_add(n); a None result FORGETS the count).  Without the latch invariant - a FAT32 volume whose
+   FS-info count was written by another implementation and is wrong - allocation never panics, succeeds exactly when a data
+   cluster is free, decrements a positive count and forgets a count of 0; once the count is unknown the statistics call counts the
+   table: exact whatever had been stored. *)
+Theorem C05_alloc_any_count_never_panics : forall (T : Type) (get : T -> N -> res fatv) (set : T -> N -> fatv -> res T)
+    (val : T -> N -> fatv) (okc : N -> Prop) (okv : fatv -> Prop) (inv : T -> Prop),
+  (forall t c, inv t -> okc c -> get t c = Ok (val t c)) ->
+  (forall t c v, inv t -> okc c -> okv v ->
+     exists t', set t c v = Ok t' /\ inv t' /\ val t' c = v /\ forall c', c' <> c -> okc c' -> val t' c' = val t c') ->
+  okv Eoc ->
+  forall t fi prev total,
+  inv t -> hint_ok (fi_next fi) ->
+  (forall x, 2 <= x < total + 2 -> okc x) ->
+  (match prev with Some p => okc p /\ (forall n, 2 <= n < total + 2 -> okv (Data n)) | None => True end) ->
+  match fs_alloc T get set t fi prev total with
+  | Ok (t', fi', c) => inv t' /\ 2 <= c < total + 2 /\ val t c = Free /\ hint_ok (fi_next fi') /\
+                       fi_free fi' = match fi_free fi with Some n => if n =? 0 then None else Some (n - 1) | None => None end
+  | Err e => e = ENotEnoughSpace /\ forall x, 2 <= x < total + 2 -> val t x <> Free
+  | Panic => False
+  | OutOfFuel => False
+  end.
+Proof. exact fs_alloc_any_count. Qed.
+
+Theorem C05_stats_exact_after_forget : forall (T : Type) (get : T -> N -> res fatv) (val : T -> N -> fatv) (okc : N -> Prop)
+    (inv : T -> Prop),
+  (forall t c, inv t -> okc c -> get t c = Ok (val t c)) ->
+  forall t fi total,
+  inv t -> fi_free fi = None -> (forall x, 2 <= x < total + 2 -> okc x) ->
+  fs_stats T get t fi total =
+    Ok ({| fi_free := Some (count_spec T val t 2 (N.to_nat total)); fi_next := fi_next fi; fi_dirty := true |},
+        count_spec T val t 2 (N.to_nat total)).
+Proof. exact fs_stats_exact_unknown. Qed.
+
+Print Assumptions C05_alloc_any_count_never_panics.
+Print Assumptions C05_stats_exact_after_forget.
+Print Assumptions C05_vol32_mount_latch.
+Print Assumptions C05_vol32_session_fsinfo.
+Print Assumptions C05_vol32_session_fsinfo_any_mount.
+Print Assumptions C05_vol32_stats_exact.
+Print Assumptions C05_vol32_flush_fs_info.
+Print Assumptions C05_vol32_session_premises.
+Print Assumptions C05_vol32_observation_fsinfo_sector_zero.
